@@ -14,6 +14,7 @@ import (
 
 	"github.com/prometheus/client_golang/prometheus"
 	"github.com/saucelabs/forwarder"
+	"github.com/saucelabs/forwarder/header"
 	"github.com/saucelabs/forwarder/verifharness/rig"
 )
 
@@ -49,6 +50,30 @@ type env struct {
 }
 
 const probeBody = "probe-ok"
+
+// upResponseRules are the --response-header rules of the proxies that go through the scripted upstream
+// proxy ("up", "upmitm"): they apply to every response to a non-CONNECT request — error responses and
+// relayed CONNECT rejections of the transport included.
+var upResponseRules = []string{"X-C12-Rule: seen", "-X-Up-Strip"}
+
+// responseRules builds the modifier the way command/run configureHeadersModifiers does.
+func responseRules(rules []string) ([]forwarder.ResponseModifier, error) {
+	var hdrs []header.Header
+	for _, rs := range rules {
+		h, err := header.ParseHeader(rs)
+		if err != nil {
+			return nil, fmt.Errorf("rule %q: %w", rs, err)
+		}
+		hdrs = append(hdrs, h)
+	}
+	hs := header.Headers(hdrs)
+	return []forwarder.ResponseModifier{forwarder.ResponseModifierFunc(func(resp *http.Response) error {
+		if req := resp.Request; req != nil && req.Method == http.MethodConnect {
+			return nil
+		}
+		return hs.ModifyResponse(resp)
+	})}, nil
+}
 
 func idOfHost(h string) string {
 	if i := strings.IndexByte(h, '.'); i > 0 {
@@ -303,6 +328,10 @@ func newEnv(root string) (*env, error) {
 	if err != nil {
 		return nil, err
 	}
+	upRules, err := responseRules(upResponseRules)
+	if err != nil {
+		return nil, err
+	}
 	mk := func(name, upstream string, mitm, tlsListener bool, reg *prometheus.Registry) error {
 		p, err := rig.StartProxy(rig.ProxyOpts{
 			ConnectTo: routes,
@@ -323,6 +352,7 @@ func newEnv(root string) (*env, error) {
 				switch upstream {
 				case "up":
 					cfg.UpstreamProxy = rig.MustURL("http://upstream.test:" + portUpstream)
+					cfg.ResponseModifiers = append(cfg.ResponseModifiers, upRules...)
 				case "dead":
 					cfg.UpstreamProxy = rig.MustURL("http://upstream.test:" + portUpDead)
 				}
